@@ -17,4 +17,5 @@ mod dirs;
 mod misc;
 mod children;
 mod more;
+mod element;
 mod canary;
